@@ -331,6 +331,24 @@ def wrap_at(rng, payload, depth):
     return x
 
 
+def reshape_descriptors(rng, x):
+    """The same loadable descriptors in the other shapes load accepts: trailing extra members, a tuple, a list subclass."""
+    if isinstance(x, dict):
+        out = {}
+        for k, v in x.items():
+            if k == "__jsonclass__" and isinstance(v, list) and len(v) == 2:
+                name, params = v[0], reshape_descriptors(rng, v[1])
+                r = rng.randrange(5)
+                out[k] = ([name, params, "extra"], [name, params, None, 4], (name, params), (name, params, []),
+                          gen.ListSub([name, params]))[r]
+            else:
+                out[k] = reshape_descriptors(rng, v)
+        return out
+    if isinstance(x, list):
+        return [reshape_descriptors(rng, v) for v in x]
+    return x
+
+
 def failure_cases(ctx, mon, rng):
     import copy
     n = 0
@@ -354,6 +372,9 @@ def failure_cases(ctx, mon, rng):
                 if not ctx.mine(n):
                     continue
                 x = wrap_at(rng, payload, depth)
+                if rep % 2:
+                    x = reshape_descriptors(rng, x)
+                    ctx.count("descriptors-in-other-accepted-shapes")
                 out = mon.load(x, "late-fail" if payload in LATE_FAILS else "good-descriptor")
                 ctx.case(("load-desc", gen.trepr(x)))
                 ctx.count("judged:load-failure-purity" if out[0] == "raise" else "judged:load-success-purity")
